@@ -109,3 +109,67 @@ void h_sse_match_copy_bounded(void) {
   if (off == 9 && len > 9) CQV_CANARY("general overlapping path");
   CQV_CANARY("returns");
 }
+
+void h_sse_memset_small(void) { ghosts(); carquet_sse_memset_small(nondet_ptr(), nondet_u8(), nondet_size_t()); CQV_CANARY("returns"); }
+void h_sse_memcpy_small(void) { ghosts(); carquet_sse_memcpy_small(nondet_ptr(), nondet_ptr(), nondet_size_t()); CQV_CANARY("returns"); }
+/* common prefix length; match lies in the same buffer (LZ) or in another one */
+void h_sse_match_length(void) {
+  ghosts();
+  size_t n = nondet_size_t(), po = nondet_size_t(), m = nondet_size_t(), mo = nondet_size_t();
+  __CPROVER_assume(n <= CQV_MAXBUF && po <= n && m <= CQV_MAXBUF && mo <= m && m - mo >= n - po);
+  uint8_t *buf = malloc(n), *other = malloc(m);
+  __CPROVER_assume(buf != NULL && other != NULL);
+  const uint8_t *match = other + mo;
+  if (nondet_bool()) { __CPROVER_assume(mo <= po && m == n); match = buf + mo; }
+  size_t r = carquet_sse_match_length(buf + po, match, buf + n);
+  CQV_CANARY("returns");
+  if (r > 20 && r < n - po) CQV_CANARY("partial match possible");
+}
+
+/* bounded versions (the unbounded contracts above do not close in the time budget) */
+void h_sse_memset_small_bounded(void) {
+  size_t n = nondet_size_t();
+  __CPROVER_assume(n <= 130);
+  uint8_t buf[16 + 130 + 16];
+  uint8_t value = nondet_u8();
+  size_t m = nondet_size_t(), k = nondet_size_t();
+  __CPROVER_assume((m < 16 || m >= 16 + n) && m < sizeof buf && k < n);
+  uint8_t old_m = buf[m];
+  carquet_sse_memset_small(buf + 16, value, n);
+  __CPROVER_assert(buf[m] == old_m, "no byte outside dest[0..n) changes");
+  __CPROVER_assert(buf[16 + k] == value, "dest[k] == value");
+  if (n == 130) CQV_CANARY("64, 16 and byte steps all taken");
+  CQV_CANARY("returns");
+}
+void h_sse_memcpy_small_bounded(void) {
+  size_t n = nondet_size_t();
+  __CPROVER_assume(n <= 130);
+  uint8_t buf[16 + 130 + 16];
+  uint8_t *src = malloc(n);   /* exact size: any over-read is out of bounds */
+  __CPROVER_assume(src != NULL);
+  size_t m = nondet_size_t(), k = nondet_size_t();
+  __CPROVER_assume((m < 16 || m >= 16 + n) && m < sizeof buf && k < n);
+  uint8_t old_m = buf[m], src_k = src[k];
+  carquet_sse_memcpy_small(buf + 16, src, n);
+  __CPROVER_assert(buf[m] == old_m, "no byte outside dest[0..n) changes");
+  __CPROVER_assert(buf[16 + k] == src_k && src[k] == src_k, "dest[k] == src[k]");
+  if (n == 130) CQV_CANARY("64, 16 and byte steps all taken");
+  CQV_CANARY("returns");
+}
+void h_sse_match_length_bounded(void) {
+  /* LZ situation: p and match in one buffer, match before p, limit = end of the buffer (exact
+   * size: any over-read of p is out of bounds); limit - p <= 48 */
+  size_t tot = nondet_size_t(), po = nondet_size_t(), mo = nondet_size_t();
+  __CPROVER_assume(tot <= 64 && po <= tot && tot - po <= 48 && mo <= po);
+  uint8_t *buf = malloc(tot);
+  __CPROVER_assume(buf != NULL);
+  const uint8_t *p = buf + po, *match = buf + mo;
+  size_t r = carquet_sse_match_length(p, match, buf + tot);
+  size_t k = nondet_size_t();
+  __CPROVER_assert(r <= tot - po, "result capped at limit - p");
+  __CPROVER_assert(!(k < r) || p[k] == match[k], "the first r bytes are equal");
+  __CPROVER_assert(!(r < tot - po) || p[r] != match[r], "byte r differs unless the limit was reached");
+  if (r > 20 && r < tot - po) CQV_CANARY("partial match possible");
+  if (r == 48) CQV_CANARY("full match possible");
+  CQV_CANARY("returns");
+}
